@@ -64,7 +64,7 @@ def c021(ctx):
         oks = P.ok_points(f)
         ctx.floor(R, f.skey + " Ok exits", len(oks), 1)
         for pt in oks:
-            g = K.guarded_by_call(f, pt, r"WorkCoalescingQueue::do_work$", label="otherwise", recv_field="fsync_cq")
+            g = K.guarded_by_call(f, pt, r"WorkCoalescingQueue::do_work$", label="sw:1", recv_field="fsync_cq")
             ctx.check(R, f, "Ok-unguarded", g is not None,
                       "Ok(()) is reachable only through the true edge of fsync_cq.do_work",
                       "Ok(()) at %s is not dominated by the success edge of fsync_cq.do_work" % P.pt_loc(f, pt), pt=pt)
@@ -159,7 +159,7 @@ def c021_fsync_core(ctx, R, f):
     for pt in P.field_writes(f, r"FsyncCoalescingCore$", "synced"):
         ok = False
         for bb, lab, ss in K.guards(f, pt):
-            if lab == "otherwise" and any(s["k"] == "call" and s["callee"].endswith("::work::fsync") for s in ss):
+            if lab == "sw:1" and any(s["k"] == "call" and s["callee"].endswith("::work::fsync") for s in ss):
                 ok = True
         ctx.check(R, f, "synced-write", ok, "self.synced advances only when fsync() returned true",
                   "self.synced is advanced without a successful fsync", pt=pt)
